@@ -319,6 +319,29 @@ def seq_job(arg):
                     r = st.fetch_paths([p]).get(p)
                     if r != key:
                         bad("final fetch_paths(%s)=%r, committed %s.." % (p, r, key[:6]), _alias_mech(p, r, pmap))
+            if ok and blobs and kind in ("local", "local_lru", "local_linked"):
+                # queries never change the store: a blob file that (still) has no metadata - a writer is between its two
+                # renames, or was killed there - is reported absent and left alone, by this handle and by a second one
+                bdir = os.path.realpath(os.path.join(root, "internal", "blobs"))
+                some = sorted(blobs)[0]
+                inflight = SM.key_for("in-flight-%d" % si)
+                if os.path.isfile(os.path.join(bdir, some)):
+                    import shutil as _sh
+
+                    _sh.copyfile(os.path.join(bdir, some), os.path.join(bdir, inflight))
+                    before_q = SM.tree_hash(root)
+                    for h in (st, _other_handle(kind, root, st)):
+                        rep.count("answers_checked", 2)
+                        try:
+                            if h.has_blob(inflight):
+                                bad("has_blob answered True for a blob file without metadata", "has-blob-wrong")
+                            h.has_blob(some)
+                            h.fetch_paths(list(pmap)[:1]) if pmap else None
+                        except BaseException as e:
+                            bad("a query raised %s: %s" % (type(e).__name__, str(e)[:100]), "store-op-raised")
+                    if SM.tree_hash(root) != before_q:
+                        bad("presence / path queries changed the files of the store (a blob whose metadata had not arrived yet was touched)", "query-modifies-store")
+                    rep.count("query_purity_checks")
             if sawp and blobs:
                 rep.nontriv(("seq", kind, repr(seq)))
     return rep
